@@ -4,6 +4,7 @@ import json
 import os
 import random
 import re
+import time
 
 from ..common import (REPO, Report, cbool, chex, clist, cobs, cstr, decide, load_findings, run_case_shards, run_impl,
                       standard_proof_part, write_replay)
@@ -104,8 +105,51 @@ def shipped_cases(rng, tier):
     return out, len(files)
 
 
+HAND_CORPUS = [
+    # :private predicates, untyped domain (no :types section), empty precondition and effect
+    ("private-untyped",
+     "(define (domain hc1) (:requirements :strips) (:predicates (p ?x) (:private (q ?x ?y) (r))) "
+     "(:action a :parameters (?x ?y) :precondition () :effect (and)) "
+     "(:action b :parameters (?x ?y) :precondition (and (p ?x) (not (q ?x ?y))) :effect (and (r) (q ?y ?x) (not (p ?x)))))",
+     [["o1", "object"], ["o2", "object"]],
+     [("b", ["o1", "o2"], [["p", ["o1"]]], []), ("b", ["o1", "o2"], [["p", ["o1"]], ["q", ["o1", "o2"]]], []), ("a", ["o1", "o2"], [], [])]),
+    # constant named like the root type, constants in literals and in fluents, trailing untyped constant
+    ("constants",
+     "(define (domain hc2) (:requirements :typing :fluents) (:types a b - object) (:constants object k - a z) "
+     "(:predicates (p ?x - a) (g ?x - object)) (:functions (f ?x - a)) "
+     "(:action act :parameters (?x - a) :precondition (and (p object) (g z) (>= (f k) 0.5)) "
+     ":effect (and (p ?x) (increase (f object) 0.25) (assign (f ?x) (- (f k) 1.75)))))",
+     [["o1", "a"]], [("act", ["o1"], [["p", ["object"]], ["g", ["z"]]], [["f", ["k"], 1.0], ["f", ["object"], 0.0], ["f", ["o1"], 3.0]]),
+                     ("act", ["o1"], [["p", ["object"]]], [["f", ["k"], 1.0], ["f", ["object"], 0.0], ["f", ["o1"], 3.0]])]),
+    # deep nesting, quantifier inside a disjunction, (in)equalities at several levels, forall-when with inequality
+    ("nesting",
+     "(define (domain hc3) (:requirements :adl) (:types a - object b - a) (:predicates (p ?x - a) (e ?x - a ?y - a)) "
+     "(:action act :parameters (?x - a ?y - b) :precondition (and (or (and (p ?x) (or (not (p ?y)) (= ?x ?y))) "
+     "(forall (?q - b) (or (e ?q ?x) (not (= ?q ?y))))) (not (= ?x ?y))) "
+     ":effect (and (forall (?u - a) (when (and (e ?u ?x) (not (= ?u ?y))) (and (not (e ?u ?x)) (p ?u)))) "
+     "(when (or (p ?y) (not (p ?x))) (e ?x ?y)))))",
+     [["o1", "a"], ["o2", "b"], ["o3", "b"]],
+     [("act", ["o1", "o2"], [["p", ["o1"]], ["e", ["o3", "o1"]], ["e", ["o2", "o1"]]], []),
+      ("act", ["o1", "o2"], [["p", ["o2"]], ["e", ["o3", "o1"]]], []), ("act", ["o3", "o2"], [["p", ["o3"]]], [])]),
+]
+
+
+def hand_probe(name, action, args, objs, facts, fluents):
+    o = " ".join("%s - %s" % (n, t) for n, t in objs)
+    init = " ".join(["(= (%s) %r)" % (" ".join([f] + a), float(v)) for f, a, v in fluents] +
+                    ["(%s)" % " ".join([p] + a) for p, a in facts])
+    return {"action": action, "args": args, "perm_seed": 0,
+            "problem_text": "(define (problem prob) (:domain %s) (:objects %s) (:init %s) (:goal (and)))" % (name, o, init),
+            "state": {"facts": facts, "fluents": [[f, a, float(v).hex()] for f, a, v in fluents]}}
+
+
 def corpus_cases():
     out = []
+    for tag, text, objs, probes in HAND_CORPUS:
+        name = re.search(r"\(domain (\w+)\)", text).group(1)
+        out.append({"kind": "corpus", "domain_text": text, "objects": objs,
+                    "probes": [hand_probe(name, a, args, objs, facts, fl) for a, args, facts, fl in probes],
+                    "features": ["hand:" + tag], "witness_of": None, "klass": None})
     for f in load_findings(PROP):
         w = f.get("witness")
         if not w or "domain_text" not in w:
@@ -199,8 +243,15 @@ def run(args):
             lit, u = case_literal(c, r)
             lits.append(lit)
             units.append(u)
-        verdicts, info = run_case_shards(PROP, "Corr.C08", lits, shard_size=8, units=units, header_extra=HEADER,
-                                         max_bytes=110_000)
+        for attempt in range(3):
+            verdicts, info = run_case_shards(PROP, "Corr.C08", lits, shard_size=8, units=units, header_extra=HEADER,
+                                             max_bytes=110_000)
+            if not info["shard_errors"]:
+                break
+            # a shard that could not be evaluated (another builder rebuilding shared .vo files, memory pressure) is
+            # evaluated again; a failure that persists is reported by decide()
+            stats["shard_retries"] = stats.get("shard_retries", 0) + 1
+            time.sleep(20)
         info_total["shards"] += info["shards"]
         info_total["shard_errors"] += info["shard_errors"]
         info_total["cmd"] = info["cmd"]
@@ -250,6 +301,8 @@ def run(args):
                     else:
                         stats["app_raised"] += 1
                     stats["succ_returned"] += 1 if "value" in b["succ0"] else 0
+    if info_total["shard_errors"]:
+        rep.notes.append({"shard_errors": [{"file": e["file"], "rc": e["rc"], "out": e["out"][-400:]} for e in info_total["shard_errors"][:5]]})
     decide(rep, PROP, "Corr.C08", all_cases, all_verdicts, info_total, explain_expr="explain %s", header_extra=HEADER,
            max_replays=5)
     cov = rep.coverage
@@ -263,7 +316,10 @@ def run(args):
                    "up to 10 probes (random states over all type-correct ground atoms x type-correct calls, effect collections in forced orders); "
                    "'rounding' worlds have 60% of their numerals replaced by long constants (ties, carries, negative zero, exponents) and are judged on "
                    "the text-level units only; plus every distinct domain file under tests/ of the repository with automatically built probes "
-                   "(two objects per type, random facts/fluents, random type-correct calls). Each case yields the units export / reparse / second and one "
+                   "(two objects per type, random facts/fluents, random type-correct calls with distinct arguments; every other state is completed with the "
+                   "call's positive precondition literals so that about half of these probes are applicable), three hand-written corpus domains "
+                   "(:private predicates in an untyped domain; a constant named 'object', constants in literals and fluents, an untyped trailing constant; "
+                   "deep nesting with a quantifier inside a disjunction) and the witnesses of the recorded findings. Each case yields the units export / reparse / second and one "
                    "per probe. Non-trivial: a parsed, non-corpus case; probe units need a state with at least one fact. Distinct by input hash.")
     samples = [c for c in all_cases if c["input"]["unit"] == "export"][:2] + [c for c in all_cases if c["input"]["unit"].startswith("probe")][:2]
     cov["samples"] = [{"unit": c["input"]["unit"], "domain": (c["input"]["case"].get("domain_text") or c["input"]["case"].get("domain_path"))[:500],
